@@ -21,6 +21,21 @@ CHECKS = {
             "are regenerated from the running build each run and the obligation 'every listed source is accepted' is re-checked by the kernel; "
             "the parser model is tied to SourceList.FromString by differential cases evaluated with vm_compute.",
             "DESIGN.md 5/C13", ""),
+    "C01": (True, "Coq theorems over the result-set/life-cycle model (all registries, bodies incl. panics) + in-Coq correspondence with mock registries through Lint*Ex + monitor of the theorem's conclusions on the real registry",
+            "Proof: for any list of lints with distinct names, any configuration and arbitrary bodies, linting returns (certificates: even when bodies panic) a set with exactly one entry per lint, "
+            "the producer's metadata, flags iff contents, version 3, and only defined statuses when bodies return defined statuses (the framework adds only NA/NE/Fatal). The model is tied to "
+            "zlint.Lint*Ex by scripted mock registries evaluated in Coq; the body hypotheses (no nil result, status range, CRL/OCSP panic freedom) are explored on the real registry, not proved.",
+            "DESIGN.md 5/C01", "No-hang is not expressible in a total model; per-object time limits only."),
+    "C03": (True, "Coq theorems (window exactness for all instants, silence outside the window for all lints/kinds/bodies) + in-Coq correspondence of checkEffective and of the life cycle",
+            "Proof: check_effective e i t holds iff (e unset or e <= t) and (i unset or t < i) for all instants; outside the window every returned result is NA/NE/Fatal and the body is not run, for all "
+            "lints of the three kinds, any configuration outcome and arbitrary bodies. Tied to the code by the CheckEffective API on all registry dates +-1s/1ns in three zones, scripted mock lints with call logs, "
+            "and every registered lint at its own boundary dates on re-dated corpus objects.",
+            "DESIGN.md 5/C03", "X.509 times being whole seconds is the parser's business (modelled, not verified)."),
+    "C04": (True, "Coq theorems over the life-cycle model and scope predicates + correspondence on the life-cycle product with call logs and on every real lint via direct calls",
+            "Proof: scope gate (NA, empty call log), inapplicability (NA, body not run), verdict preservation (exactly the body's result on the fresh configured instance; recover for certificates), "
+            "call order, and the three scope predicates as iff against their declarative reading - for all lints, objects, configurations and bodies. Tied to the code by the product of life-cycle dimensions with "
+            "instrumented mocks, by every registered lint x corpus objects fed with direct calls, and by the scope predicates on corpus + generated EKU/policy/SAN combinations.",
+            "DESIGN.md 5/C04", ""),
 }
 
 REASON_PENDING = "check not built yet in this session; planned (see DESIGN.md section 5)"
